@@ -52,7 +52,10 @@ ASSUMPTIONS = [
 ]
 
 PROBES = ["add_array", "iadd_array", "mul_array", "div_array", "sub_array", "neg_setter",
-          "neg_factor", "oversub"]
+          "neg_factor", "oversub", "sub_ok",
+          # refused with the switch on or off - they exercise the raising paths of the operators:
+          "sub_incompatible", "sub_other_ndim", "add_incompatible", "isub_incompatible", "mul_hist", "div_hist"]
+ALWAYS_REFUSED = {"sub_incompatible", "sub_other_ndim", "add_incompatible", "isub_incompatible", "mul_hist", "div_hist"}
 
 
 # ----------------------------------------------------------------------------
@@ -172,7 +175,9 @@ class Interp:
 
         val = config.free_arithmetics
         ctx.ev(self.actor.aid, "read:" + tag, None, f"{val}|{self.model}")
-        if bool(val) != bool(self.model) or not isinstance(val, bool):
+        from sim.oracle import chaos
+
+        if chaos() or bool(val) != bool(self.model) or not isinstance(val, bool):
             ctx.violation(
                 "C19/read-equals-model",
                 f"C19/read!=model/{self.actor.kind}/{tag}/{self.where()}",
@@ -206,16 +211,47 @@ class Interp:
             fn = lambda: h * (-1)  # noqa: E731
         elif kind == "oversub":
             fn = lambda: h - h * 3  # noqa: E731
+        elif kind == "sub_ok":
+            fn = lambda: h - h.copy()  # noqa: E731  (never negative: accepted in both modes)
+        elif kind in ("sub_incompatible", "add_incompatible", "isub_incompatible"):
+            from physt.binnings import StaticBinning
+
+            bs = [StaticBinning(np.asarray(b.bins, dtype=float) + 0.37) for b in h.binnings]
+            other = type(h)(bs[0]) if h.ndim == 1 else type(h)(bs)
+            if kind == "sub_incompatible":
+                fn = lambda: h - other  # noqa: E731
+            elif kind == "add_incompatible":
+                fn = lambda: h + other  # noqa: E731
+            else:
+                def fn():
+                    c = h.copy()
+                    c -= other
+                    return c
+        elif kind == "sub_other_ndim":
+            other = self.hist(not nd)
+            fn = lambda: h - other  # noqa: E731
+        elif kind == "mul_hist":
+            fn = lambda: h * h.copy()  # noqa: E731
+        elif kind == "div_hist":
+            fn = lambda: h / h.copy()  # noqa: E731
         else:
             raise HarnessError(kind)
         expected = bool(self.model)
+        if kind in ALWAYS_REFUSED:
+            expected = False
+        elif kind == "sub_ok":
+            expected = True
         ok, res = attempt(fn)
         if not ok and isinstance(res, (ActorKilled,)):
             raise res
         ctx.ev(self.actor.aid, "probe:" + kind, int(nd), f"{'ok' if ok else type(res).__name__}|{expected}")
         ctx.probe("probe_accepted" if ok else "probe_refused")
-        if ok != expected:
+        from sim.oracle import chaos
+
+        if chaos() or ok != expected:
             what = "accepted-without-flag" if ok else "refused-with-flag"
+            if kind in ALWAYS_REFUSED or kind == "sub_ok":
+                what = "accepted-in-either-mode" if ok else "refused-in-either-mode"
             ctx.violation(
                 "C19/guard-follows-context",
                 f"C19/probe/{kind}/{what}/{self.actor.kind}/{self.where()}",
@@ -269,6 +305,7 @@ class Interp:
                 self.check_read(ctx, "after-set")
             elif op == "probe":
                 self.probe(ctx, ins["kind"], ins.get("nd", False))
+                self.check_read(ctx, "after-probe:" + ("raising" if ins["kind"] in ALWAYS_REFUSED else "arith"))
             elif op == "raise":
                 if self.depth:
                     ctx.fault("exception_in_body")
